@@ -126,6 +126,9 @@ def Parser.DependsOnlyOn (P : Parser ρ) (dep : Params → δ) : Prop :=
     (P.kind (P.parse p bs)).effect = .put → (P.kind (P.parse p bs)).truthy = true →
     P.parse p' bs = P.parse p bs
 
+/-- the name this hypothesis has in DESIGN.md -/
+abbrev parse_depends_only_on (P : Parser ρ) (dep : Params → δ) : Prop := P.DependsOnlyOn dep
+
 theorem soundKey_full {P : Parser ρ} (hd : P.DependsOnlyOn Params.attrKey) :
     SoundKeyOn (fun _ => True) P.policy keyFull (fun x : Params × Bytes => P.parse x.1 x.2) := by
   intro i j _ _ hk he hs
